@@ -217,6 +217,7 @@ func init() {
 		r.Rule("R-MAPRANGE-RETURN", "a range over a map returns at most one distinct constant result from inside the loop", 0)
 		ruleMapRangeReturnFile(c, r, "ytypes", "util_types.go")
 		ruleEnumGen(c, r)
+		ruleEnumGoNameUniq(c, r)
 	})
 	register("C20", func(c *Ctx, r *Report) {
 		r.Decides("three panic classes over everything statically reachable from the nine entry points: unchecked single-result type assertions, comparisons of possibly-uncomparable interface values, reflective calls with unchecked arity; plus no explicit panic().",
@@ -390,6 +391,7 @@ func init() {
 		ruleFieldMethodClash(c, r)
 		ruleTypeNameGuard(c, r)
 		ruleUnionNameClash(c, r)
+		ruleEnumGoNameUniq(c, r)
 	})
 }
 
